@@ -283,23 +283,27 @@ func runC09(cfg *config) *Report {
 						if !path.ok {
 							continue
 						}
-						out, werr, p := realWrite(path.file, encCfg{})
-						if p != nil {
-							continue
-						}
-						if werr != nil {
-							continue // the writer itself refuses: nothing is produced that the reader could reject
-						}
-						_, rerr, _ := realRead(out, encCfg{}, 1<<22)
-						if rerr != nil && strings.Contains(rerr.Error(), "token too long") {
-							// the record outgrew this harness' scanner buffer (a length field was set to its maximum):
-							// a buffer-size matter (C16), not a refusal by a validator
-							rep.count("record-larger-than-harness-buffer")
-							continue
-						}
-						if rerr != nil {
-							rep.violate(Violation{Key: "C09:accepted-then-refused:" + recName, What: fmt.Sprintf("%s accepts a file whose %s.%s is invalid (%s), the bytes it writes are refused by the reader: %v", path.name, recName, w.Src, cl.name, rerr),
-								Replay: map[string]any{"record": recName, "field": w.Src, "class": cl.name, "path": path.name, "json": string(js), "reader_error": rerr.Error()}})
+						// newline-framed ASCII always, and one of the three other renderings in rotation
+						for _, e := range []encCfg{{}, allEnc[1+rep.Evaluations%3]} {
+							out, werr, p := realWrite(path.file, e)
+							if p != nil {
+								continue
+							}
+							if werr != nil {
+								continue // the writer itself refuses: nothing is produced that the reader could reject
+							}
+							_, rerr, _ := realRead(out, e, 1<<22)
+							if rerr != nil && strings.Contains(rerr.Error(), "token too long") {
+								// the record outgrew this harness' scanner buffer (a length field was set to its maximum):
+								// a buffer-size matter (C16), not a refusal by a validator
+								rep.count("record-larger-than-harness-buffer")
+								continue
+							}
+							if rerr != nil {
+								rep.violate(Violation{Key: "C09:accepted-then-refused:" + recName, What: fmt.Sprintf("%s accepts a file whose %s.%s is invalid (%s), the bytes it writes (%s) are refused by the reader: %v", path.name, recName, w.Src, cl.name, e, rerr),
+									Replay: map[string]any{"record": recName, "field": w.Src, "class": cl.name, "path": path.name, "encoding": e.String(), "json": string(js), "reader_error": rerr.Error()}})
+								break
+							}
 						}
 					}
 					if rep.Evaluations%211 == 0 {
